@@ -11,6 +11,9 @@ ValB(k) == CASE k = "int" -> "3" [] k = "bigint" -> "B3" [] k = "float" -> "2.5"
 BinOps == {"+", "-", "*", "/", "%", "<<", ">>", "&", "|", "xor", "<", "<=", ">", ">=", "==", "!=", "&&", "||", "^"}
 OpCases == {[id |-> "op " \o ka \o " " \o op \o " " \o kb, setup |-> <<"a = " \o ValA(ka), "b = " \o ValB(kb)>>, e |-> "a " \o op \o " b"] :
               op \in BinOps, ka \in Kinds6, kb \in Kinds6}
+(* op-assignment: the target keeps its static type, so the stored result must have that kind *)
+OpAssignCases == {[id |-> "opassign " \o ka \o " " \o op \o "= " \o kb, setup |-> <<"a = " \o ValA(ka), "b = " \o ValB(kb), "a " \o op \o "= b">>, e |-> "a"] :
+                    op \in {"+", "-", "*", "/", "%"}, ka \in Kinds6, kb \in Kinds6}
 UnCases == {[id |-> "un " \o u \o " " \o k, setup |-> <<"a = " \o ValA(k)>>, e |-> u \o "a"] : u \in {"-", "!"}, k \in Kinds6}
 
 Recv == [str |-> "\"abc\"", int |-> "5", bigint |-> "B5", float |-> "2.5", byte |-> "0b101", list |-> "il", map |-> "mp", fnv |-> "fv", clo |-> "cl",
@@ -68,7 +71,7 @@ Prologue == <<"z0 = 0", "z1 = 1", "z2 = 2", "fl = 1.5", "il: [int...] = [1, 2, 3
 (* variable) or inside a method                                                                                         *)
 Ctxs == {"module", "closure", "method"}
 VARIABLES c, ctx
-Init == c \in OpCases \cup UnCases \cup CallCases \cup Prefixed /\ ctx \in Ctxs
+Init == c \in OpCases \cup OpAssignCases \cup UnCases \cup CallCases \cup Prefixed /\ ctx \in Ctxs
 Next == UNCHANGED <<c, ctx>>
 Probe(ind) == <<ind \o "r = " \o c.e, ind \o "print typeof r", ind \o "print r">>
 Lines == Prologue \o c.setup \o <<"print \"GO\"">> \o
